@@ -189,7 +189,11 @@ def handle (j : Json) : Json :=
   let out := outcome cm
   let kinds := (ops.map (fun o => kindStr o.kind)).foldl (fun acc k => insertSorted k acc) []
   let multi := cm.g ≥ 2
-  let branches := if !multi then [] else
+  -- one goroutine that performs every call of the case at least twice on the same objects: the reuse dimension
+  let reuse := cm.g == 1 && calls.length ≥ 2 && cm.per ≥ 2 * calls.length
+  let branches := if !multi then
+      (if reuse then ["reuse.sequential"] ++ kinds.map (fun k => s!"reuse.kind.{k}") ++
+         (if getBool j "cold" then ["reuse.cold.firstUse"] else []) else []) else
     kinds.map (fun k => s!"kind.{k}") ++ pairs kinds ++
     (if multi && ops.any (fun o => validates o.kind && !o.patterns.isEmpty) then ["pattern.cacheUse"] else []) ++
     (if multi && ops.any (fun o => validates o.kind && o.arrays) then ["unique.lazyInit"] else []) ++
